@@ -133,17 +133,37 @@ class SmartList(list):
             raise ValueError("List only supports elements of type '%s'" %
                              self._content_type)
 
+        # Raises if there is no item at 'key'; nothing has been changed yet.
+        replaced = self[key]
+        if replaced is value:
+            return
+
+        # The name of the new object must not be used by any remaining sibling.
+        for obj in self:
+            if obj is not replaced and obj is not value and \
+                    hasattr(obj, "name") and obj.name == value.name:
+                raise KeyError("Object with the same name already exists! " + str(value))
+
+        # An object must not replace a child of one of its own descendants.
+        new_parent = getattr(replaced, "_parent", None)
+        node = new_parent
+        while node is not None:
+            if node is value:
+                raise ValueError("An object cannot be added to one of its own children.")
+            node = node.parent
+
         # If required remove new object from its old parents child-list
         if hasattr(value, "_parent") and (value._parent and value in value._parent):
             value._parent.remove(value)
 
         # If required move parent reference from replaced to new object
         # and set parent reference on replaced object None.
-        if hasattr(self[key], "_parent"):
-            value._parent = self[key]._parent
-            self[key]._parent = None
+        if hasattr(replaced, "_parent"):
+            value._parent = new_parent
+            replaced._parent = None
 
-        super(SmartList, self).__setitem__(key, value)
+        # The position may have shifted if the new object was a sibling of the replaced one.
+        super(SmartList, self).__setitem__(self.index(replaced), value)
 
     def __contains__(self, key):
         for obj in self:
@@ -247,6 +267,31 @@ class Sectionable(BaseObject):
         """
         return self._sections
 
+    def _ensure_no_cycle(self, obj):
+        """
+        Raises a ValueError if *obj* is this object or one of its parents.
+
+        :param obj: odML Section or Property object.
+        """
+        node = self
+        while node is not None:
+            if node is obj:
+                raise ValueError("An object cannot be added to itself "
+                                 "or to one of its own children.")
+            node = node.parent
+
+    def _prepare_child(self, obj):
+        """
+        Makes sure that *obj* can become a child of this object without breaking
+        the tree structure and removes it from its current parent, if it has one.
+        Has to be called after all other checks and before *obj* is added.
+
+        :param obj: odML Section or Property object.
+        """
+        self._ensure_no_cycle(obj)
+        if obj.parent is not None:
+            obj.parent.remove(obj)
+
     def insert(self, position, section):
         """
         Insert a Section at the child-list position. A ValueError will be raised,
@@ -260,6 +305,7 @@ class Sectionable(BaseObject):
             if section.name in self._sections:
                 raise ValueError("Section with name '%s' already exists." % section.name)
 
+            self._prepare_child(section)
             self._sections.insert(position, section)
             section._parent = self
         else:
@@ -273,6 +319,10 @@ class Sectionable(BaseObject):
         """
         from odml.section import BaseSection
         if isinstance(section, BaseSection):
+            if section.name in self._sections:
+                raise KeyError("Object with the same name already exists! " + str(section))
+
+            self._prepare_child(section)
             self._sections.append(section)
             section._parent = self
         elif isinstance(section, Iterable) and not isinstance(section, str):
@@ -291,12 +341,16 @@ class Sectionable(BaseObject):
             raise TypeError("'%s' object is not iterable" % type(sec_list).__name__)
 
         # Make sure only Sections with unique names will be added.
+        new_names = []
         for sec in sec_list:
             if not isinstance(sec, BaseSection):
                 raise ValueError("Can only extend objects of type Section.")
 
-            if isinstance(sec, BaseSection) and sec.name in self._sections:
+            if sec.name in self._sections or sec.name in new_names:
                 raise KeyError("Section with name '%s' already exists." % sec.name)
+
+            new_names.append(sec.name)
+            self._ensure_no_cycle(sec)
 
         for sec in sec_list:
             self.append(sec)
